@@ -37,6 +37,12 @@ static std::string opPca(Args& A){
 	o.vec("mean", pca.mean()); o.vec("eigenvalues", ev); o.mat("eigenvectors", V);
 	o.mat("encW", enc.matrix()); o.vec("encb", enc.offset()); o.mat("decW", dec.matrix()); o.vec("decb", dec.offset());
 	// ---- oracle
+	{ bool fin = true;
+	  RealMatrix const& EW = enc.matrix(); RealMatrix const& DW = dec.matrix();
+	  for(std::size_t i = 0; i < EW.size1(); ++i) for(std::size_t j = 0; j < EW.size2(); ++j) if(!std::isfinite(EW(i, j))) fin = false;
+	  for(std::size_t i = 0; i < DW.size1(); ++i) for(std::size_t j = 0; j < DW.size2(); ++j) if(!std::isfinite(DW(i, j))) fin = false;
+	  for(std::size_t i = 0; i < enc.offset().size(); ++i) if(!std::isfinite(enc.offset()(i))) fin = false;
+	  if(!fin) o.fail("pca-nonfinite-model"); }
 	double top = ev.size() ? std::fabs(ev(0)) : 0.0;
 	for(std::size_t i = 0; i + 1 < ev.size(); ++i) if(!(ev(i) >= ev(i + 1) - 1e-10 * (1 + top))) o.fail("pca-eigenvalues-not-sorted");
 	for(std::size_t i = 0; i < ev.size(); ++i) if(!(ev(i) >= -1e-10 * (1 + top))) o.fail("pca-negative-eigenvalue");
